@@ -32,6 +32,7 @@ func runC02(c string) string {
 	defer e2eMu.Unlock()
 	segs := strings.Split(c, ";;")
 	cfg := parseConfig(segs[0])
+	cfg.fastKeepalive = true
 	var specs []*killSpec
 	for _, k := range strings.Split(segs[1], ";") {
 		f := fields(k)
